@@ -864,6 +864,15 @@ def _joined_row(ck):
                  found="; ".join(T.show(e.extra["target"]) for e in stores[:4]) or "no store to self / the other row")
         n += 1
         a = dict(v[3])
+
+        def through(x):
+            # a field read from a row that was itself built by create(...) a moment ago is the argument it was built with
+            while x is not None and x[0] == "attr" and x[1][0] == "app" and x[1][1].endswith("AlignmentResultRow.create") \
+                    and x[2] in dict(x[1][3]):
+                x = dict(x[1][3])[x[2]]
+            return x
+        a = {k0: through(v0) if k0 in ("queryId", "referenceId", "queryLength", "referenceLength", "reverseStrand") else v0
+             for k0, v0 in a.items()}
         for k in ("queryId", "referenceId", "queryLength", "referenceLength"):
             ck.judge(a.get(k) == self_attr(k), "C08.6", f"AlignmentResultRow.resolve:{k}", w,
                      f"joined row keeps {k} of the parts", found=T.show(a.get(k, C(None))), required=f"self.{k}")
